@@ -21,7 +21,7 @@ ASSUMPTIONS = [
     "operation names are unique per program by construction, so 'printed exactly once' is a count of the name in the parsed text",
     "case menu()/menu2() headers are only generated under message_SwitchMenu-style switch headers and value/operator headers under the others (what the decompiler's switch table documents)",
 ]
-CASES = {"quick": 3200, "thorough": 60000}
+CASES = {"quick": 6400, "thorough": 60000}
 
 
 KF_JOIN = "kf_join_search_finds_immediate_joins_only"
